@@ -32,7 +32,7 @@ pub uninterp spec fn plain_spec<'b>(line: Seq<char>) -> Option<GrepLine<'b>>;
 pub uninterp spec fn coloured_spec<'b>(raw_line: Seq<char>) -> Option<GrepLine<'b>>;
 /// what parse_grep_line / parse_raw_grep_line answer
 pub open spec fn plain_result<'b>(line: Seq<char>) -> Option<GrepLine<'b>> {
-    if is_prefix(seq!['{'], line) { json_spec(line) } else if grep_caller(the_calling_process()) { plain_spec(line) } else { None }
+    if is_prefix(seq!['{'], line) && json_spec(line) is Some { json_spec(line) } else if grep_caller(the_calling_process()) { plain_spec(line) } else { None }
 }
 pub open spec fn raw_result<'b>(raw_line: Seq<char>) -> Option<GrepLine<'b>> {
     if !is_prefix(seq!['\x1b'], raw_line) || !grep_caller(the_calling_process()) { None } else { coloured_spec(raw_line) }
@@ -47,6 +47,7 @@ pub fn verif_parse_coloured<'b>(raw_line: &'b str) -> (r: Option<GrepLine<'b>>) 
 //@ fn src/handlers/grep.rs parse_grep_line
 //@| ensures !is_prefix(seq!['{'], line@) && !grep_caller(the_calling_process()) ==> r is None,  // @C04,C16:text.that.merely.looks.like.a.grep.hit.is.left.alone.unless.delta.was.called.by.a.grep
 //@|         r == plain_result(line@),
+//@|         grep_caller(the_calling_process()) && json_spec(line@) is None ==> r == plain_spec(line@),  // @C16:a.plain.grep.line.is.read.as.one.whatever.its.first.character.also.when.its.path.starts.with.a.brace
 //@rewriteall <<<&*process::calling_process()>>> => <<<&verif_calling_process()>>>
 //@rewrite <<<[ &*GREP_LINE_REGEX_ASSUMING_FILE_EXTENSION_AND_LINE_NUMBER, &*GREP_LINE_REGEX_ASSUMING_FILE_EXTENSION_NO_SPACES, &*GREP_LINE_REGEX_ASSUMING_FILE_EXTENSION, &*GREP_LINE_REGEX_ASSUMING_NO_INTERNAL_SEPARATOR_CHARS, ] .iter() .find_map(|regex| _parse_grep_line(regex, line))>>> => <<<verif_try_plain_regexes(line)>>>
 //@rewriteall <<<&GREP_LINE_REGEX_ASSUMING_FILE_EXTENSION_AND_LINE_NUMBER>>> => <<<verif_rx(1)>>>
